@@ -787,6 +787,12 @@ def ident(s: str) -> str:
     return "".join(ch if ch.isalnum() else "_" for ch in s)
 
 
+# (class, version) pairs whose export_dxf raises by design
+EXPORT_REFUSED = {("BLOCK_RECORD", "AC1009"): "DXF R12 has no BLOCK_RECORD table"}
+# registered classes that cannot be created through the public API (loaded from files only)
+NO_FACTORY = {"ACAD_TABLE"}
+
+
 def collect_schemas(ctx=None):
     """run the tracer over every registered class x every version.
     returns dict with classes, mappings, notes, stats (pure data; emission is separate so that the oracle and the
@@ -827,17 +833,16 @@ def collect_schemas(ctx=None):
             for ver in VERSIONS:
                 try:
                     tr = trace_export(e, ver)
-                except Exception as ex:  # noqa  e.g. BLOCK_RECORD refuses DXF R12
-                    notes.append(f"{dxftype} {ver}: export_dxf raised {type(ex).__name__}: {str(ex)[:80]}")
-                    continue
+                except Exception as ex:  # noqa
+                    if (dxftype, ver) in EXPORT_REFUSED:
+                        notes.append(f"{dxftype} {ver}: export_dxf raised {type(ex).__name__}: {str(ex)[:80]} ({EXPORT_REFUSED[(dxftype, ver)]})")
+                        continue
+                    raise ValueError(f"T-schema: export_dxf of the {dxftype} instance raised for {ver}: {type(ex).__name__}: {ex}")
                 if tr is None:
                     continue
                 text, segs = tr
-                try:
-                    steps, _, _ = trace_load(cls, text, segs, load_docs[ver])
-                except Exception as ex:  # noqa
-                    notes.append(f"{dxftype} {ver}: load trace failed {type(ex).__name__}: {str(ex)[:160]}")
-                    continue
+                # a trace that cannot be aligned with what the loader sees is a translation failure, never skipped
+                steps, _, _ = trace_load(cls, text, segs, load_docs[ver])
                 psteps = []
                 for st in steps:
                     key = mapping_key(st[1])
@@ -845,9 +850,18 @@ def collect_schemas(ctx=None):
                     psteps.append(("simple", idx) if st[0] == "simple" else ("fast", idx, st[2], st[3], st[4]))
                 plans.append({"ver": vernum(ver), "segs": segs, "loads": psteps})
                 stats["plans"] += 1
+        if e is not None:
+            want = [vernum(v) for v in VERSIONS if v >= cls.MIN_DXF_VERSION_FOR_EXPORT and (dxftype, v) not in EXPORT_REFUSED]
+            have = [p["ver"] for p in plans]
+            if want != have:
+                raise ValueError(f"T-schema: {dxftype} is exportable for {want} but the instance was written for {have} only "
+                                 f"(preprocess_export refused it: the zoo instance lacks required data)")
         exported = {ev[1] for p in plans for _, evs in p["segs"] for ev in evs if ev[0] == "attr"}
         stats["attrs_exported"] += len(exported)
         classes.append({"dxftype": dxftype, "attrs": attrs, "plans": plans, "min_export": vernum(cls.MIN_DXF_VERSION_FOR_EXPORT)})
+    if set(stats["no_instance"]) != NO_FACTORY:
+        raise ValueError(f"T-schema: no instance for {sorted(set(stats['no_instance']) - NO_FACTORY)}: a registered entity type the zoo "
+                         f"(build_zoo) does not know; the statement 'for every registered entity type' would silently shrink")
     return {"classes": classes, "mappings": mappings, "notes": notes, "stats": stats}
 
 
@@ -1052,6 +1066,16 @@ def x1_cases(ctx):
         1: ([None, "", "A", "0", "BYLAYER"], [None, "", "A", "0", "BYLAYER", "x" * 300]),
         8: ([None, "0"], [None, "0", "L"]),
         330: ([None, "0"], [None, "0", "FF"]),
+        62: ([None, 256, 0], [None, 256, 0, 7, 257]),
+        370: ([None, -1], [None, -1, -3, 13, 211]),
+        48: ([None, 1.0, 1], [None, 1.0, 0.5, 1e-300]),
+        420: ([None], [None, 0, 0xFFFFFF]),
+        6: ([None, "BYLAYER"], [None, "BYLAYER", "bylayer", "DASHED"]),
+        50: ([None, 0, 0.0], [None, 0.0, -0.0, 359.99999999999994]),
+        281: ([None, 0], [None, 0, 1]),
+        1070: ([None], [None, 0, -32768]),
+        1040: ([None, 0.0], [None, 0.0, 2.5]),
+        3: ([None, ""], [None, "", "x" * 2049 + "^"]),
         10: ([None, (0, 0, 0), (0, 0, 1), Vec3(1, 2, 3), (1.0, 2.0), (-0.0, 0.0, 0.0)],
              [None, Vec3(0, 0, 0), Vec3(0, 0, 1), Vec3(1, 2, 3), Vec3(1, 2, 0), Vec3(-0.0, 0.0, -0.0), Vec3(1, 2, -0.0),
               Vec3(nan, 1, 0)]),
@@ -1070,7 +1094,7 @@ def x1_cases(ctx):
                     for v in values:
                         combos.append((code, xt, d, opt, v))
     rng.shuffle(combos)
-    combos = combos[: ctx.n(2500, 20000)]
+    combos = combos[: ctx.n(3000, 20000)]
     cases = []
     for code, xt, d, opt, v in combos:
         minver = rng.choice(["AC1009", "AC1009", "AC1015", "AC1021", "AC1032"])
@@ -1131,7 +1155,7 @@ def x2_cases(ctx):
     rng = ctx.rng("x2")
     cases = []
     base = ExtendedTags([DXFTag(0, "LINE"), DXFTag(5, "1"), DXFTag(100, "AcDbEntity"), DXFTag(8, "0")])
-    for i in range(ctx.n(4000, 40000)):
+    for i in range(ctx.n(4000, 80000)):
         # mapping
         m = {}
         for _ in range(rng.randint(0, 6)):
@@ -1271,7 +1295,7 @@ def x3_cases(ctx):
     load_docs = {v: ezdxf.new(VNAME[v]) for v in VERSIONS}
     exp_cases, load_cases = [], []
     shape_changes = 0
-    per = ctx.n(3, 12)
+    per = ctx.n(3, 24)
     for c in data["classes"]:
         e = zoo.get(c["dxftype"])
         if e is None or not c["plans"]:
@@ -2057,7 +2081,7 @@ def o1_zoo(ctx, classes, small=False):
     stream = "O1 attribute sweep"
     rng = ctx.rng("o1")
     plan = []
-    salts = 1 if small else ctx.n(2, 10)
+    salts = 1 if small else ctx.n(2, 16)
     for ver in VERSIONS:
         for salt in range(salts):
             for fmt in ("asc", "bin"):
@@ -2254,7 +2278,7 @@ def o2_documents(ctx, classes, small=False):
 
     stream = "O2 whole documents"
     rng = ctx.rng("o2")
-    for i in range(7 if small else ctx.n(28, 420)):
+    for i in range(7 if small else ctx.n(28, 1400)):
         ver = VERSIONS[i % 7]
         seed = rng.randrange(1 << 30)
         fmt = "asc" if (i // 7) % 2 == 0 else "bin"
@@ -2270,7 +2294,7 @@ def o2_documents(ctx, classes, small=False):
         ctx.count(stream, ("rich", ver, fmt, seed), True)
         ctx.hist(stream, f"type-rich {VNAME[ver]} {fmt}")
         roundtrip_check(ctx, stream, doc, ver, fmt, rep, classes, label="rich ")
-    for i in range(7 if small else ctx.n(42, 700)):
+    for i in range(7 if small else ctx.n(42, 2100)):
         ver = VERSIONS[i % 7]
         seed = rng.randrange(1 << 30)
         fmt = "asc" if (i // 7) % 2 == 0 else "bin"
@@ -2425,6 +2449,20 @@ def replay(ctx, rep):
             doc = ezdxf.new(VNAME[r["version"]])
             build_rich(doc, random.Random(r["seed"]), r["version"])
             roundtrip_check(ctx, "replay", doc, r["version"], r["fmt"], r, classes)
+        elif r.get("op") == "history":
+            from gen.dochist import Runner, gen_rich
+            hr = random.Random(r["seed"])
+            length = hr.choice([8, 16, 30])
+            run = Runner(VNAME[r["version"]])
+            choose = gen_rich(hr)
+            for _ in range(length):
+                op = choose(run)
+                if op[0] in ("reload", "reactor", "audit"):
+                    continue
+                if r["version"] == "AC1009" and op[0] in ("newlayout", "dellayout", "renlayout", "activate"):
+                    continue
+                run.apply(op)
+            roundtrip_check(ctx, "replay", run.doc, r["version"], r["fmt"], r, classes)
         elif r.get("op") == "multitags":
             from ezdxf.lldxf.tags import text_to_multi_tags, multi_tags_to_text
             if multi_tags_to_text(text_to_multi_tags(r["text"])) != r["text"]:
